@@ -145,7 +145,50 @@ func TestGovcBounded_C01(t *testing.T) {
 			}
 		}
 	}
-	fmt.Printf("GOVC-BOUNDED name=C01 cases=%d failures=%d bound=\"SAMPLED, not exhaustive: %d rounds x capacities {1,2,3,8,64} (pre-rotated) under the Go race detector, %d producers x %d values (Push and PushWait) against %d consumers (Pop and PopWait) and a Len watcher: exactly once, per-producer order, 0 <= Len <= Cap, quiescent exactness, full/empty behaviour\"\n", cases, fails, rounds, P, per, C)
+	// every rotation incl. the wrap of the 32-bit tickets: rings whose head/tail start k tickets before 2^32 (slot tickets
+	// set consistently), driven sequentially through the wrap with Len/IsEmpty/IsFull/FIFO checked at every step
+	for _, capacity := range []int{2, 4, 8} {
+		for back := uint32(0); back <= uint32(2*capacity); back++ {
+			cases++
+			ring := NewSync[int](capacity)
+			rc := ring.Cap()
+			start := uint32(0) - back
+			ring.head, ring.tail = start, start
+			for k := 0; k < rc; k++ {
+				t := start + uint32(k)
+				ring.values[t&ring.mask].pos = t
+			}
+			n, next, want := 0, 0, 0
+			for step := 0; step < 6*rc; step++ {
+				if step%(2*rc) < rc+1 {
+					ok := ring.Push(next)
+					if ok != (n < rc) {
+						fail("cap %d start 2^32-%d: Push with %d elements returned %v", rc, back, n, ok)
+						break
+					}
+					if ok {
+						n++
+						next++
+					}
+				} else {
+					v, ok := ring.Pop()
+					if ok != (n > 0) || (ok && v != want) {
+						fail("cap %d start 2^32-%d: Pop with %d elements returned %d,%v want %d", rc, back, n, v, ok, want)
+						break
+					}
+					if ok {
+						n--
+						want++
+					}
+				}
+				if ring.Len() != n || ring.IsEmpty() != (n == 0) || ring.IsFull() != (n == rc) {
+					fail("cap %d start 2^32-%d (head=%d tail=%d): %d elements but Len %d IsEmpty %v IsFull %v", rc, back, ring.head, ring.tail, n, ring.Len(), ring.IsEmpty(), ring.IsFull())
+					break
+				}
+			}
+		}
+	}
+	fmt.Printf("GOVC-BOUNDED name=C01 cases=%d failures=%d bound=\"SAMPLED, not exhaustive: %d rounds x capacities {1,2,3,8,64} (pre-rotated) under the Go race detector, %d producers x %d values (Push and PushWait) against %d consumers (Pop and PopWait) and a Len watcher: exactly once, per-producer order, 0 <= Len <= Cap, quiescent exactness, full/empty behaviour; plus, exhaustively, capacities {2,4,8} started 0..2*cap tickets before the 2^32 wrap and driven sequentially through it (Len/IsEmpty/IsFull/FIFO exact at every step)\"\n", cases, fails, rounds, P, per, C)
 	if fails > 0 {
 		t.Fail()
 	}
